@@ -133,6 +133,8 @@ pub enum Op {
     /// insert, under an existing key (the n-th), a value that is `==` to the stored one but not the same value
     /// (same Ref id with another display name, same instant in another zone); the third field is a scratch slot
     DictInsertTwin(u8, u16, u8),
+    /// keys of a dict that is an entry of a list, written into that very list (the dict pointer is borrowed from the result)
+    DictKeysOwn(u8, u16),
     DictLen(u8),
     DictKeys(u8, u8),
     DictInsert(u8, Txt, u8),
@@ -189,6 +191,7 @@ impl Op {
             ListSetNested(l, i, k) => json!(["ListSetNested", l, i, k]),
             DictInsertOwn(d, n, k) => json!(["DictInsertOwn", d, n, k.to_json()]),
             DictInsertTwin(d, n, t) => json!(["DictInsertTwin", d, n, t]),
+            DictKeysOwn(l, i) => json!(["DictKeysOwn", l, i]),
             DictGet(d, k, n) => json!(["DictGet", d, k.to_json(), n]),
             DictRemove(d, k) => json!(["DictRemove", d, k.to_json()]),
             GridLen(s) => json!(["GridLen", s]),
@@ -244,6 +247,7 @@ impl Op {
             "ListSetNested" => ListSetNested(u8_(1), u(2) as u16, u(3) as u16),
             "DictInsertOwn" => DictInsertOwn(u8_(1), u(2) as u16, t(3)),
             "DictInsertTwin" => DictInsertTwin(u8_(1), u(2) as u16, u8_(3)),
+            "DictKeysOwn" => DictKeysOwn(u8_(1), u(2) as u16),
             "DictLen" => DictLen(u8_(1)),
             "DictKeys" => DictKeys(u8_(1), u8_(2)),
             "DictInsert" => DictInsert(u8_(1), t(2), u8_(3)),
@@ -265,7 +269,7 @@ impl Op {
         })
     }
     pub fn is_container_mutation(&self) -> bool {
-        matches!(self, Op::ListPush(..) | Op::ListSet(..) | Op::ListRemove(..) | Op::DictInsert(..) | Op::DictRemove(..) | Op::ListPushOwn(..) | Op::ListSetOwn(..) | Op::ListSetNested(..) | Op::DictInsertOwn(..) | Op::DictInsertTwin(..))
+        matches!(self, Op::ListPush(..) | Op::ListSet(..) | Op::ListRemove(..) | Op::DictInsert(..) | Op::DictRemove(..) | Op::ListPushOwn(..) | Op::ListSetOwn(..) | Op::ListSetNested(..) | Op::DictInsertOwn(..) | Op::DictInsertTwin(..) | Op::DictKeysOwn(..))
     }
     pub fn is_container_read(&self) -> bool {
         matches!(self, Op::ListLen(_) | Op::ListGet(..) | Op::DictLen(_) | Op::DictKeys(..) | Op::DictGet(..) | Op::ToZinc(_) | Op::ToJson(_) | Op::GridFromRows(..))
@@ -395,6 +399,7 @@ pub fn op() -> BoxedStrategy<Op> {
         2 => (slot(), any::<u16>(), any::<u16>()).prop_map(|(l, i, k)| ListSetNested(l, i, k)),
         2 => (slot(), any::<u16>(), txt()).prop_map(|(d, n, k)| DictInsertOwn(d, n, k)),
         3 => (slot(), any::<u16>(), 0u8..8).prop_map(|(d, n, t)| DictInsertTwin(d, n, t)),
+        2 => (slot(), any::<u16>()).prop_map(|(l, i)| DictKeysOwn(l, i)),
         2 => slot().prop_map(DictLen),
         3 => (slot(), slot()).prop_map(|(d, r)| DictKeys(d, r)),
         5 => (slot(), txt(), slot()).prop_map(|(d, k, e)| DictInsert(d, k, e)),
@@ -410,7 +415,7 @@ pub fn op() -> BoxedStrategy<Op> {
         3 => (fslot(), slot()).prop_map(|(f, d)| FilterMatchDict(f, d)),
         2 => (fslot(), slot(), slot()).prop_map(|(f, g, r)| FilterFirst(f, g, r)),
         2 => (fslot(), slot(), slot()).prop_map(|(f, g, r)| FilterAll(f, g, r)),
-        2 => Just(LastError),
+        4 => Just(LastError),
         3 => slot().prop_map(Destroy),
     ]
     .boxed()
@@ -462,6 +467,9 @@ pub struct Machine {
     model: Vec<Option<Value>>,
     mfilters: Vec<Option<Filter>>,
     pending_error: bool,
+    /// a caller that does not look at error messages right away: they are read only by the LastError op and at the end
+    /// (one sequence in four; the message-related assertions are skipped for it, the memory-related ones are the point)
+    pub defer_errors: bool,
     pub soft_unexpected_error_after_success: u64,
     pub failing_ops: u64,
     pub aliasing_skipped: u64,
@@ -601,6 +609,7 @@ impl Machine {
             model: (0..SLOTS).map(|_| None).collect(),
             mfilters: (0..FSLOTS).map(|_| None).collect(),
             pending_error: false,
+            defer_errors: false,
             soft_unexpected_error_after_success: 0,
             failing_ops: 0,
             aliasing_skipped: 0,
@@ -654,6 +663,14 @@ impl Machine {
 
     /// the error-message protocol after an op
     fn after(&mut self, e: Expect, op: &Op) -> Verdict {
+        if self.defer_errors {
+            if matches!(e, Expect::Fail) {
+                self.failing_ops += 1;
+            } else {
+                *self.ok_ops.entry(op_name(op)).or_insert(0) += 1;
+            }
+            return self.snapshot(op);
+        }
         match e {
             Expect::Fail => {
                 self.failing_ops += 1;
@@ -1125,6 +1142,34 @@ impl Machine {
                     }
                     v
                 }
+                DictKeysOwn(l, i) => {
+                    let l = &self.sel(*l, W::List);
+                    let dicts: Vec<usize> = match self.m(*l) {
+                        Some(Value::List(x)) => x.iter().enumerate().filter(|(_, e)| matches!(e, Value::Dict(_))).map(|(n, _)| n).collect(),
+                        _ => vec![],
+                    };
+                    if dicts.is_empty() {
+                        return Verdict::Pass;
+                    }
+                    let at = dicts[idx(*i, dicts.len())];
+                    let mut p: *const Value = std::ptr::null();
+                    if c_api::list::haystack_value_get_list_entry_at(self.h(*l), at, &mut p) != ResultType::TRUE || p.is_null() {
+                        bail!(op, "{:?}: get_list_entry_at({at}) failed", op.to_json());
+                    }
+                    // the borrowed dict is valid when the call starts; the call may replace the list's content by the keys
+                    let got = c_api::dict::haystack_value_get_dict_keys(p as *mut Value, self.h(*l));
+                    let keys: Option<Value> = match self.m(*l) {
+                        Some(Value::List(x)) => match &x[at] {
+                            Value::Dict(d) => Some(Value::make_list(d.keys().map(|k| Value::make_str(k)).collect())),
+                            _ => None,
+                        },
+                        _ => None,
+                    };
+                    if let Some(k) = keys {
+                        self.model[*l as usize % SLOTS] = Some(k);
+                    }
+                    self.expect_rt(got, Some(true), op)
+                }
                 DictInsertTwin(d, n, tmp) => {
                     let d = &self.sel(*d, W::Dict);
                     let entries: Vec<(String, Value)> = match self.m(*d) {
@@ -1437,6 +1482,11 @@ impl Machine {
                 }
                 LastError => {
                     let m = take_cstr(c_api::err::last_error_message());
+                    if self.defer_errors {
+                        // whatever is pending is read now - possibly long after the failing call and after the handles it
+                        // was about were destroyed; the text is not asserted
+                        return Verdict::Pass;
+                    }
                     if m.is_some() {
                         bail!(op, "last_error_message() returned {m:?} although every error was already retrieved");
                     }
@@ -1711,6 +1761,7 @@ impl Machine {
 
 pub fn run_sequence(ops: &[Op]) -> (Verdict, Machine) {
     let mut m = Machine::new();
+    m.defer_errors = ops.iter().map(|o| crate::runner::key_of(&o.to_json().to_string())).fold(0u64, |a, b| a ^ b.rotate_left(7)) % 3 == 0;
     let mut v = Verdict::Pass;
     for op in ops {
         v = m.step(op);
